@@ -64,8 +64,8 @@ CONCRETE = {
     ("WATCHDOG_TIMEOUT", "none"): [None],
     ("APPLICATIONS", "empty"): [[]],
 }
-ANY = {"LOCAL_NODE_HOSTNAME": ["client.network", "a"], "LOCAL_NODE_REALM": ["network", "x.y"], "LOCAL_NODE_PORT": [3868, 1, 65535],
-       "PEER_NODE_HOSTNAME": ["server.network"], "PEER_NODE_REALM": ["network"], "PEER_NODE_PORT": [3868, 3869], "UNKNOWN_KEY": ["x", None]}
+ANY = {"LOCAL_NODE_HOSTNAME": ["client.network", "a", "MME01.Local.Example"], "LOCAL_NODE_REALM": ["network", "x.y", "Local.EXAMPLE"], "LOCAL_NODE_PORT": [3868, 1, 65535],
+       "PEER_NODE_HOSTNAME": ["server.network", "HSS01.EPC.Example.COM"], "PEER_NODE_REALM": ["network", "EPC.Example.COM"], "PEER_NODE_PORT": [3868, 3869], "UNKNOWN_KEY": ["x", None]}
 
 
 def apps(cls, rng):
@@ -148,8 +148,8 @@ def write_yaml(path, entries, rng):
     lines = ["api_version: v1", "name: verif", "spec:"]
     fields = []
     for i, e in enumerate(entries):
-        host, realm = f"node{i}.local.example", f"realm{i}.example"
-        f = {"hostname": host, "realm": realm, "ip": f"10.0.{i}.1", "port": 3868 + i, "phost": f"peer{i}.example", "prealm": "peer.example",
+        host, realm = f"Node{i}.Local.example", f"realm{i}.Example"           # (identities are carried as configured: letter case included)
+        f = {"hostname": host, "realm": realm, "ip": f"10.0.{i}.1", "port": 3868 + i, "phost": f"PEER{i}.EPC.Example.COM", "prealm": "Peer.Example",
              "pip": f"10.1.{i}.2", "pport": 3900 + i, "wd": 30 + i, "napps": 1 + (i % 2)}
         fields.append(f)
         lines.append(f"  - mode: {e['mode']}")
@@ -282,6 +282,33 @@ def run(rep):
         check_yaml(rep, v["entries"], v["out"], rng, path)
         if len(rep.violations) >= 40:
             break
+    # a list with one entry that cannot be converted (unknown application constant, a missing key, a mode that is not text): the
+    # file is rejected as a whole or yields one description per entry - never fewer
+    from bromelia._internal_utils import _convert_file_to_config as _cf
+    import bromelia.bromelia as _bb
+    for bad_at in (0, 1, 2):
+        for what in ("app", "port", "mode"):
+            entries = [{"mode": "client", "tr": "none"}, {"mode": "SERVER", "tr": "sctp"}, {"mode": "Client", "tr": "TCP"}]
+            write_yaml(path, entries, rng)
+            text = open(path).read().split("  - mode: ")
+            blk = text[bad_at + 1]
+            if what == "app":
+                blk = blk.replace("DIAMETER_APPLICATION_S6a_S6d", "DIAMETER_APPLICATION_S6a_S6b", 1)
+            elif what == "port":
+                blk = "\n".join(l for l in blk.split("\n") if not l.strip().startswith("port:") or "39" not in l)
+            else:
+                blk = "7" + blk[blk.index("\n"):]
+            text[bad_at + 1] = blk
+            open(path, "w").write("  - mode: ".join(text))
+            rep.case(("yaml-bad-entry", bad_at, what))
+            try:
+                with guard(10, "yaml"):
+                    cfgs = _cf(path, vars(_bb))
+            except BaseException:
+                continue
+            if len(cfgs) != 3:
+                rep.violation(f"a YAML spec of 3 entries whose entry {bad_at + 1} cannot be converted ({what}) was accepted with {len(cfgs)} connection description(s)",
+                              {"kind": "yaml-bad-entry", "bad_at": bad_at, "what": what})
     # longer lists: recorded and validated by TLC
     recs, meta = [], []
     for i in range(60 if quick else 2000):
@@ -354,6 +381,10 @@ def replay(rep, path):
         rep.sample(r)
         return rep.finish()
     rng = random.Random(rep.seed)
+    if r["kind"] == "yaml-bad-entry":
+        rep.notes["replay"] = "re-run of the tier"
+        run(rep)
+        return rep.finish()
     if r["kind"] == "config":
         vec, res = vectors.gen("Gen_replay", ["Config"], f"V == <<[out |-> Outcome({T(r['cfg'])})]>>", "V")
         rep.tlc("Gen_replay", res)
